@@ -34,6 +34,7 @@ mod streamraw;
 mod lexmath;
 mod stypes;
 mod linecol;
+mod readers;
 
 fn main() {
     let args: Vec<String> = std::env::args().collect();
@@ -101,6 +102,10 @@ fn main() {
     if prop == "C09" { stypes::run_c09(&mut sink, thorough, seed); }
     if prop == "C13" { stypes::run_c13(&mut sink, thorough, seed); }
     if prop == "C10" { stypes::run_c10(&mut sink, thorough, seed); }
+    // the two real string scanners of read.rs called directly (docs/READERS-NOTES.md): one line per property
+    if prop == "C09" { readers::run(&mut sink, thorough, seed); }
+    if prop == "C05" { readers::run(&mut sink, thorough, seed); }
+    if prop == "C05" { c05::run_bytesctl(&mut sink, thorough, seed); }
     sink.finish(stats);
 }
 
@@ -123,6 +128,7 @@ fn replay(sink: &mut common::Sink, toks: &[&str]) {
         #[cfg(feature = "rv")]
         "rawfld" | "rawconv" => c19b::replay(sink, toks),
         "esc" | "escbufs" | "hex4" | "hex4s" | "scan" => c05::replay(sink, toks),
+        "bytesctl" => c05::replay(sink, toks),
         "serc" | "serp" | "serbufs" | "serbufx" | "disp" => c03::replay(sink, toks),
         "dispf" | "dispn" => c03::replay(sink, toks),
         "maphist" | "mapeqh" | "mapeq" | "maphash" | "mapsort" => c17::replay(sink, toks),
@@ -138,6 +144,7 @@ fn replay(sink: &mut common::Sink, toks: &[&str]) {
         "lm" => lexmath::replay(sink, toks),
         "tstream" | "tstream3" | "tsfault" | "tspfx" => stypes::replay(sink, toks),
         "lc3" | "lcs" => linecol::replay(sink, toks),
+        "rd" | "rs" => readers::replay(sink, toks),
         _ => eprintln!("cannot replay op {}", toks[0]),
     }
 }
